@@ -931,7 +931,7 @@ def run(prop, tier, seed):
     ev = vlib.Evidence(prop, tier, seed, level="proof")
     tools = Tools()
     os.makedirs(WORK, exist_ok=True)
-    rundir = os.path.join(WORK, "%s-%d" % (tier, seed))
+    rundir = os.path.join(WORK, "%s-%d-%d" % (tier, seed, os.getpid()))   # overlapping runs must not share case files
     shutil.rmtree(rundir, ignore_errors=True)
     os.makedirs(rundir)
     try:
